@@ -197,6 +197,15 @@ theorem outcomes :
     (step genFacts D0 (init D0) (0, .parseArgs { id := 1, toks := [tok (.printConfig noFlags)], tail := { subMissing := true } })).2.cls
       = .argError := by decide
 
+/-- `--print_config --cfg FILE`: the nested parse of the file honours the request made before it — prints what it has
+    and exits, or fails when that partial configuration cannot be dumped; `--cfg FILE --print_config` prints at the end -/
+theorem cfg_honours_request :
+    (step genFacts D0 (init D0) (0, .parseArgs { id := 1, toks := [tok (.printConfig noFlags), tok (.cfg false), tok (.plain false) true] })).2.cls
+      = .exit 0 true false ∧
+    (step genFacts D0 (init D0) (0, .parseArgs { id := 1, toks := [tok (.printConfig noFlags), tok (.cfg true)] })).2.cls = .argError ∧
+    (step genFacts D0 (init D0) (0, .parseArgs { id := 1, toks := [tok (.cfg true), tok (.printConfig noFlags)] })).2.cls
+      = .exit 0 true false := by decide
+
 /-- the unconstrained carriers really differ after a history (the invariant is not "nothing changes") -/
 theorem carriers_change :
     let w := runHist genFacts D0 [(0, .parseArgs { id := 21, toks := [tok (.dc true true false)],
